@@ -380,6 +380,10 @@ func (c *SpecCtx) selector(x *ast.SelectorExpr) SpecVal {
 		f := stt.Field(fi)
 		cur = c.mk(app(fieldAcc(ft.d.structName(t), fi, f.Name()), cur.T), f.Type())
 	}
+	if _, isSlice := cur.Typ.Underlying().(*types.Slice); isSlice && !strings.Contains(cur.T, "!q") && !strings.Contains(cur.T, "!r") && !strings.Contains(cur.T, "!a") {
+		// heap well-formedness: a slice stored in a field has 0 <= len <= cap (ground terms only)
+		ft.assume("true", and(app("<=", "0", app("sl-len", cur.T)), app("<=", app("sl-len", cur.T), app("sl-cap", cur.T)), app("<=", app("sl-cap", cur.T), "4611686018427387904")))
+	}
 	return cur
 }
 
